@@ -85,13 +85,23 @@ theorem toks_mkVal (env : TyEnv) (f x slot len ty : Nat) : ∀ p ∈ (mkVal env 
   intro p hp
   unfold mkVal at hp
   split at hp
-  · simp only [Val.toks, mem_toksL, List.mem_map, List.mem_range] at hp
-    obtain ⟨v, ⟨i, _, rfl⟩, hv⟩ := hp
-    split at hv
-    · simp only [Val.toks, Val.toksL, List.append_nil] at hv
-      exact toks_mkAtom env f x slot i _ p hv
-    · exact toks_mkAtom env f x slot i _ p hv
-  · exact toks_mkAtom env f x slot 0 ty p hp
+  · -- zero values carry no token
+    exfalso
+    split at hp
+    · simp only [Val.toks, mem_toksL, List.mem_map, List.mem_range] at hp
+      obtain ⟨v, ⟨i, _, rfl⟩, hv⟩ := hp
+      obtain ⟨_, _, hm⟩ := valOk_zeroVal [] env _ p hv
+      cases hm
+    · obtain ⟨_, _, hm⟩ := valOk_zeroVal [] env _ p hp
+      cases hm
+  · split at hp
+    · simp only [Val.toks, mem_toksL, List.mem_map, List.mem_range] at hp
+      obtain ⟨v, ⟨i, _, rfl⟩, hv⟩ := hp
+      split at hv
+      · simp only [Val.toks, Val.toksL, List.append_nil] at hv
+        exact toks_mkAtom env f x slot i _ p hv
+      · exact toks_mkAtom env f x slot i _ p hv
+    · exact toks_mkAtom env f x slot 0 ty p hp
 
 theorem valOk_retVal (env : TyEnv) (h : List Event) (r : Ret) (slot decl : Nat)
     (hr : r.dry = false → OkExec h (r.f, r.x)) : ValOk h (r.val env slot decl) := by
